@@ -160,7 +160,7 @@ func cmdRun(args []string) int {
 		return 3
 	}
 	w.Thorough = *tier == "thorough"
-	cfg := gosym.Config{MaxIter: cd.MaxIter, QueryMs: 4000, FallbackMs: 30000, Stubs: cd.Stubs, PanicIsViolation: true}
+	cfg := gosym.Config{MaxIter: cd.MaxIter, QueryMs: 4000, FallbackMs: 30000, Stubs: cd.Stubs, PanicIsViolation: true, NoMergeFns: cd.NoMergeFns}
 	if w.Thorough {
 		cfg.QueryMs, cfg.FallbackMs = 10000, 120000
 	}
@@ -462,7 +462,7 @@ func confirmReplay(w *gosym.World, cd *CheckDef, v *gosym.Violation, path string
 	if fn == nil {
 		return false, "harness not found"
 	}
-	cfg := gosym.Config{MaxIter: cd.MaxIter, QueryMs: 10000, Stubs: cd.Stubs, PanicIsViolation: true, Inputs: v.Inputs}
+	cfg := gosym.Config{MaxIter: cd.MaxIter, QueryMs: 10000, Stubs: cd.Stubs, PanicIsViolation: true, Inputs: v.Inputs, NoMergeFns: cd.NoMergeFns}
 	if cfg.Inputs == nil {
 		cfg.Inputs = map[string]uint64{}
 	}
